@@ -214,11 +214,11 @@ def nested_source(S, cont2, outer=False):
             f"        r1: {ann(cont2, repr('Loc'), True)}{default_for(cont2)}\n\ndef make{S}():\n    return Outer{S}.Loc\n")
 
 
-def local_source(S, cont2, collide=False, sibling=None):
+def local_source(S, cont2, collide=False, sibling=None, mutual=False):
     # collide: the module namespace already binds an unrelated class under the local class's name
     # sibling: a second class local to the same function, named by the first one ('before' / 'after' it in the body)
     pre = "class Loc(Schema):\n    v: str = 'module-level'\n    zzz: int = 0\n\n" if collide else ""
-    leaf = "    class Leaf(Schema):\n        v: int = 0\n"
+    leaf = "    class Leaf(Schema):\n        v: int = 0\n" + ("        r0: Optional['Loc'] = None\n" if mutual else "")
     return (pre + f"def make{S}():\n" + (leaf if sibling == "before" else "") +
             f"    class Loc(Schema):\n        v: int = 0\n        r0: Optional['Loc'] = None\n"
             f"        r1: {ann(cont2, repr('Loc'), True)}{default_for(cont2)}\n" +
@@ -527,6 +527,14 @@ def generate(rng, tier):
             plan["sibling"] = rng.choice(["before", "after"])
             prog["classes"][0]["refs"].append({"to": 1, "cont": "opt", "spell": "str"})
             prog["classes"].append({"refs": []})
+            if rng.random() < 0.5:
+                # the two local classes name each other
+                plan["mutual"] = True
+                if plan["sibling"] == "before":
+                    # (the earlier class names the later one: with a module-level class of that name around, the string
+                    # resolves at the declaration, to that one - there is no direct-reference spelling to compare with)
+                    plan["collide"] = False
+                prog["classes"][1]["refs"].append({"to": 0, "cont": "opt", "spell": "str"})
         plan["prog"] = prog
         ev = []
         for _ in range(rng.choice([2, 3, 4])):
@@ -876,7 +884,7 @@ def execute(plan):
     S = "__" + kernel.new_suffix()
     if plan["kind"] == "local":
         mod = kernel.make_module("verif_c17_loc_" + S.strip("_"), HEADER + (nested_source(S, plan["cont2"], plan.get("nested_outer")) if plan.get("nested_in_class") else
-                                                                            local_source(S, plan["cont2"], plan.get("collide"), plan.get("sibling"))))
+                                                                            local_source(S, plan["cont2"], plan.get("collide"), plan.get("sibling"), plan.get("mutual"))))
         if plan.get("nested_in_class"):
             res.stats["probe:class_nested_in_class_body"] += 1
         if plan.get("sibling"):
